@@ -157,6 +157,9 @@ def run_e2e(case):
     try:
         with open(os.path.join(d, 'mod.py'), 'wb') as f:
             f.write(src)
+        if mode in ('output', 'stdin_output') and len(src) % 2:
+            with open(os.path.join(d, 'out.py'), 'wb') as f:      # an earlier, longer result at the --output path
+                f.write(b'# stale ' + b'#' * (len(src) + 100) + b'\n')
         before = cli.snapshot(d)
         argv = list(flags) + list(pres)
         stdin = None
@@ -197,7 +200,7 @@ def run_e2e(case):
                     len(written or b''), len(want), (written or b'')[:120], want[:120])
             else:
                 others = {k: v for k, v in after.items() if k not in ('out.py',) and not (mode == 'in_place' and k == 'mod.py')}
-                base = {k: v for k, v in before.items() if not (mode == 'in_place' and k == 'mod.py')}
+                base = {k: v for k, v in before.items() if k != 'out.py' and not (mode == 'in_place' and k == 'mod.py')}
                 if others != base:
                     detail = 'other files changed: %r' % sorted(set(after) ^ set(before))
                 if mode in ('output', 'stdin_output', 'in_place') and out not in (b'', b'mod.py\n'):
@@ -213,6 +216,88 @@ def run_e2e(case):
     return res
 
 
+MULTI_SRC = '''import collections
+def first_function(alpha, beta=2):
+    delta = alpha + beta
+    spaced = delta * alpha + beta
+    names = spaced - delta + alpha
+    return alpha, beta, delta, spaced, names, gamma, epsilon
+gamma = collections.OrderedDict()
+epsilon = [gamma, gamma, gamma]
+zeta = one = two = (gamma, epsilon, epsilon)
+print(first_function(1), zeta, one, two, TAG)
+'''
+
+
+def run_multi(case):
+    """several modules (paths and a directory) in one --in-place run: every file must equal what the API gives for that file with the same options"""
+    import python_minifier as pm
+    flags = case['flags']
+    pres = case['preserve']
+    res = {'status': 'held', 'violations': [], 'counters': {'cli_runs': 1, 'multi_file_runs': 1}, 'nontrivial': []}
+    d = tempfile.mkdtemp(prefix='vf_c13m_')
+    try:
+        files = {}
+        for i, rel in enumerate(['a_first.py', 'b_second.py', os.path.join('pkg', 'c_third.py'), os.path.join('pkg', 'sub', 'd_fourth.pyw')]):
+            src = (MULTI_SRC.replace('TAG', repr('file %d' % i)) + ('extra_%d = gamma\n' % i) * i).encode()
+            os.makedirs(os.path.dirname(os.path.join(d, rel)) or d, exist_ok=True)
+            with open(os.path.join(d, rel), 'wb') as f:
+                f.write(src)
+            files[rel] = src
+        with open(os.path.join(d, 'pkg', 'notes.txt'), 'wb') as f:
+            f.write(b'not python\n')
+        before = cli.snapshot(d)
+        order = case.get('order', 0)
+        paths = [['a_first.py', 'b_second.py', 'pkg'], ['pkg', 'b_second.py', 'a_first.py'], ['.']][order % 3]
+        argv = list(flags) + list(pres) + ['--in-place'] + paths if order % 2 == 0 else ['--in-place'] + paths + list(flags) + list(pres)
+        rc, out, err = cli.run_cli(argv, d)
+        after = cli.snapshot(d)
+        detail = None
+        if cli_model.invalid(flags):
+            if rc == 0 or after != before:
+                detail = 'invalid flag combination: rc=%d tree_changed=%s' % (rc, after != before)
+            else:
+                res['counters']['invalid_rejected_e2e'] = 1
+        elif rc != 0:
+            detail = 'tool exit status %d, stderr %r' % (rc, err[-300:])
+        else:
+            for rel, src in sorted(files.items()):
+                want = cli_model.expected_bytes(src, flags, pres, pm)
+                got = after.get(rel, (None, None))[1]
+                if got != want:
+                    detail = 'file %s (%d of %d in this run): bytes written differ from UTF-8 of the API result: %r vs %r' % (
+                        rel, sorted(files).index(rel) + 1, len(files), (got or b'')[:160], want[:160])
+                    break
+            if detail is None and after.get(os.path.join('pkg', 'notes.txt')) != before.get(os.path.join('pkg', 'notes.txt')):
+                detail = 'non-python file changed'
+            if detail is None:
+                res['nontrivial'].append('multi|%s|%d' % (' '.join(flags + pres), order))
+        if detail:
+            res['violations'].append({'mech': None, 'detail': '[multi] %s: %s' % (' '.join(argv), detail), 'witness': {'argv': argv}})
+            res['status'] = 'violation'
+        elif case.get('want_sample'):
+            res['sample'] = {'argv': argv, 'files': sorted(files), 'rc': rc}
+    finally:
+        shutil.rmtree(d, ignore_errors=True)
+    return res
+
+
+def multi_cases(tier, seed):
+    r = common.rng(seed, 'C13-multi')
+    cases = []
+    n = 40 if tier == 'quick' else 600
+    for i in range(n):
+        if i < 4:
+            flags = [['--rename-globals'], [], ['--rename-globals', '--no-hoist-literals'], ['--no-rename-locals']][i]
+        else:
+            flags = [f for f in cli_model.flags_of(r.getrandbits(cli_model.NFLAGS)) if r.random() < 0.4]
+            if r.random() < 0.6 and '--rename-globals' not in flags:
+                flags.append('--rename-globals')
+        pres = cli_model.PRESERVE_SPELLINGS[1 + i % 3][0] if i % 5 else []
+        cases.append({'flags': flags, 'preserve': pres, 'order': i, 'want_sample': i % 17 == 0, 'timeout': 100})
+    return cases
+
+
 INVALID_ARGVS = [
     (['-', 'mod.py'], 'stdin with other paths'),
     (['-', '--in-place'], 'stdin with --in-place'),
@@ -222,6 +307,15 @@ INVALID_ARGVS = [
     (['mod.py', '--remove-class-attribute-annotations', '--no-remove-annotations'], 'class-attribute flag with annotations off'),
     (['mod.py', '--remove-class-attribute-annotations', '--no-remove-annotations', '--in-place'], 'same, in place'),
     (['mod.py', '--no-such-flag'], 'unknown flag'),
+    (['mod.py', '-', '--in-place'], 'stdin after a path, with --in-place'),
+    (['--in-place', 'mod.py', 'other.py', '-'], 'stdin last of three paths, with --in-place'),
+    (['mod.py', '-'], 'stdin after a path'),
+    (['-', '-'], 'stdin twice'),
+    (['.', '-', '--in-place'], 'directory and stdin, with --in-place'),
+    (['mod.py', '.'], 'file and directory without --in-place'),
+    (['other.py', 'mod.py', '--output', 'out.py'], 'several paths with --output'),
+    (['mod.py', '--in-place', '--remove-class-attribute-annotations', '--no-remove-variable-annotations', '--no-remove-return-annotations', '--no-remove-argument-annotations', '--no-remove-annotations'],
+     'class-attribute flag with annotations off, other annotation flags present'),
     ([], 'no path'),
 ]
 
@@ -233,6 +327,8 @@ def run_invalid(case):
         src = SENTINEL.encode()
         with open(os.path.join(d, 'mod.py'), 'wb') as f:
             f.write(src)
+        with open(os.path.join(d, 'other.py'), 'wb') as f:
+            f.write(src + b'other = 1\n')
         before = cli.snapshot(d)
         rc, out, err = cli.run_cli(case['argv'], d, stdin=src)
         after = cli.snapshot(d)
@@ -304,6 +400,10 @@ def main(tier, seed):
         run.add(slim, r)
     pool.run_cases(e2e_cases(tier, seed), 'vf.props.C13:run_e2e', timeout=120, batch=2, on_result=on_e)
 
+    def on_m(c, r):
+        run.add({'layer': 'multi', 'flags': c['flags'], 'preserve': c['preserve'], 'order': c['order']}, r)
+    pool.run_cases(multi_cases(tier, seed), 'vf.props.C13:run_multi', timeout=120, batch=2, on_result=on_m)
+
     def on_i(c, r):
         run.add({'layer': 'invalid', 'argv': c['argv']}, r)
     pool.run_cases([{'argv': a, 'what': w} for a, w in INVALID_ARGVS], 'vf.props.C13:run_invalid', timeout=60, batch=1, on_result=on_i)
@@ -312,12 +412,12 @@ def main(tier, seed):
         rule='layer 1: all 2^19 subsets of the 19 boolean flags (x preserve-list spellings: one rotating per subset in quick, all four in '
              'thorough) through the real parse_args()/do_minify() with a recorder at __main__.minify, compared with the table transcribed '
              'from docs; layer 2: real subprocess runs for every single flag, a pairwise array and random subsets x sources x 5 output '
-             'modes compared byte for byte with UTF-8(api) under the size rule; invalid invocations must exit non-zero and write nothing; '
+             'modes compared byte for byte with UTF-8(api) under the size rule; invalid invocations must exit non-zero and write nothing; several files and a directory in one --in-place run, each file compared with the API result for that file; '
              'non-trivial/distinct = lattice slices completed + distinct (source, flags, mode) end-to-end runs that were compared',
         assumptions=['the flag table in vf/oracle/cli_model.py is a faithful transcription of docs/source/transforms/*.rst',
                      'layer 1 observes the arguments forwarded to minify(); that minify() honours them is the API\'s side (C05 etc.)'],
         extra={'lattice_exhaustive_over_flag_subsets': exhaustive, 'flag_subsets': total}, min_nontrivial=60, exhaustive=exhaustive,
-        required_counters=['flag_sets', 'cli_runs', 'invalid_rejected', 'non_default_kwargs', 'invalid_argv_runs'])
+        required_counters=['flag_sets', 'cli_runs', 'invalid_rejected', 'non_default_kwargs', 'invalid_argv_runs', 'multi_file_runs'])
 
 
 def replay(path):
@@ -327,6 +427,8 @@ def replay(path):
         r = run_e2e({'name': c['name'], 'src_b64': c['src_b64'], 'flags': c['flags'], 'preserve': c['preserve'], 'mode': c['mode']})
     elif c.get('layer') == 'invalid':
         r = run_invalid({'argv': c['argv'], 'what': 'replay'})
+    elif c.get('layer') == 'multi':
+        r = run_multi({'flags': c['flags'], 'preserve': c['preserve'], 'order': c['order']})
     else:
         r = run_lattice({'lo': c['lo'], 'hi': c['hi'], 'tier': 'thorough'})
     print(json.dumps(r, indent=1)[:3000])
